@@ -54,11 +54,15 @@ def confirm(src, name, prop):
         t0 = time.time()
         rc0, out0 = sh(f"sh {run}", cwd=wt)
         result["demo_on_unchanged_tree"] = {"exit": rc0, "tail": out0[-1500:]}
+        # demos may leave files behind (test sources copied into the tree): the suite must run on patch-only sources
+        sh("git clean -fdq -e target -e seed_demo && git checkout -- .", cwd=wt)
         rc, out = sh(f"git apply {os.path.abspath(src)}/patch.diff", cwd=wt)
         assert rc == 0, "patch does not apply: " + out
         rcs, outs = sh(SUITE + " 2>&1 | tail -15", cwd=wt)
         result["suite_with_patch"] = {"cmd": SUITE, "tail": outs[-1500:]}
-        suite_ok = (" passed" in outs) and ("failed" not in outs.split("Summary")[-1] if "Summary" in outs else "FAIL" not in outs)
+        import re
+        m = re.search(r"Summary \[[^\]]*\]\s+(\d+) tests run: (\d+) passed(?:, (\d+) failed)?", outs)
+        suite_ok = bool(m) and int(m.group(1)) == 220 and int(m.group(2)) == 220 and not m.group(3)
         result["suite_with_patch"]["ok"] = suite_ok
         rc1, out1 = sh(f"sh {run}", cwd=wt)
         result["demo_with_patch"] = {"exit": rc1, "tail": out1[-1500:]}
